@@ -243,7 +243,7 @@ package ringz
 // Init on a zero-value ring establishes the shared invariant (all slots free for tickets 0..cap-1)
 //@ func SyncRing.Init@rg
 //@   requires r != nil && r.head == 0 && r.tail == 0 && 0 < cap && cap <= 2147483648
-//@   modifies *r
+//@   modifies *r, r.H, r.T, r.tk, r.st
 //@   ensures rgShape(r) && rgCount(r) && rgSlotA(r) && rgSlotB(r) && rgSlotC(r) && rgSlotD(r) && rgSlotE(r)
 //@   loop 1:
 //@     invariant r.cap >= 2 && r.cap <= 2147483648 && ispow2(r.cap) && r.mask == r.cap - 1 && len(r.values) == r.cap && fresh(r.values) && r.head == 0 && r.tail == 0
